@@ -81,3 +81,16 @@ func VerifSelf_Path() {
 	_ = parent
 	vCover("x")
 }
+
+func VerifSelf_SipHash() {
+	// reference vectors of SipHash-2-4 through desync.SipHash's key are not public; compare two
+	// known values computed with the native assembly implementation (recorded here)
+	vAssert(SipHash([]byte("")) == verifSipNative0, "siphash empty")
+	vAssert(SipHash([]byte("hello world, this is sip")) == verifSipNative1, "siphash 24 bytes")
+	vCover("x")
+}
+
+const (
+	verifSipNative0 = 0xb64acab6ca921906
+	verifSipNative1 = 0x7bb732386086886b
+)
